@@ -52,11 +52,42 @@ func madeCtor2(tag int) any {
 	}).Interface()
 }
 
+// Two constructors whose parameter objects are function-local types of the same
+// name (reflect's String() is "cont.params" for both) but with different tags.
+func localParamsX() any {
+	type params struct {
+		godi.In
+		D *TagSvc2 `name:"x"`
+	}
+	return func(p params) *TagSvc { return &TagSvc{Tag: 100 + p.D.Tag} }
+}
+
+func localParamsY() any {
+	type params struct {
+		godi.In
+		D *TagSvc2 `name:"y"`
+	}
+	return func(p params) *TagSvc { return &TagSvc{Tag: 200 + p.D.Tag} }
+}
+
+func localParamsOpt() any {
+	type params struct {
+		godi.In
+		D *TagSvc2 `optional:"true"`
+	}
+	return func(p params) *TagSvc {
+		if p.D == nil {
+			return &TagSvc{Tag: 200}
+		}
+		return &TagSvc{Tag: 200 + p.D.Tag}
+	}
+}
+
 // H_FuncKinds (C04): two registrations whose constructors are function values
 // of one kind - possibly sharing their code - under two names; each identity
 // must be produced by exactly the function value registered for it.
 func H_FuncKinds() {
-	kind := vrt.Pick("kind", 0, 6)
+	kind := vrt.Pick("kind", 0, 8)
 	life := vrt.Pick("life", 0, 2)
 	order := vrt.Pick("order", 0, 1)
 	var fa, fb any
@@ -77,6 +108,12 @@ func H_FuncKinds() {
 		tagA, tagB = 17, 27
 	case 6: // one generic instantiation twice: same code, different captured state
 		fa, fb = genCtor[markA](1), genCtor[markA](2)
+	case 7: // parameter objects of two local types with one name, fields keyed differently
+		fa, fb = localParamsX(), localParamsY()
+		tagA, tagB = 101, 202
+	case 8: // ... one keyed, the other optional and unregistered
+		fa, fb = localParamsX(), localParamsOpt()
+		tagA, tagB = 101, 200
 	}
 	vrt.Finding("KF-C04-shared-code-pointer", kind == 1 || kind == 2 || kind == 4 || kind == 5 || kind == 6)
 	c := godi.NewCollection()
@@ -88,6 +125,9 @@ func H_FuncKinds() {
 			return c.AddScoped(f, godi.Name(name))
 		}
 		return c.AddTransient(f, godi.Name(name))
+	}
+	if kind == 7 || kind == 8 {
+		vrt.Assert(c.AddSingleton(&TagSvc2{Tag: 1}, godi.Name("x")) == nil && c.AddSingleton(&TagSvc2{Tag: 2}, godi.Name("y")) == nil, "C04.funckind_rejected")
 	}
 	if kind == 5 {
 		// the dependency itself comes from a MakeFunc constructor of another signature
@@ -122,5 +162,74 @@ func H_FuncKinds() {
 		vrt.Assert(vb.Tag == tagB, "C04.wrong_function_value", "identity b was produced by another function value: tag", vb.Tag, "want", tagB, "kind", kind)
 	}
 	sc.Close()
+	p.Close()
+}
+
+// H_SharedCodeConc (C09): transient services whose constructors are
+// reflect.MakeFunc values of two different signatures (natively one code
+// pointer for all of them) resolved by two goroutines in their own scopes,
+// alternating between the two services; happens-before race detector on.
+func H_SharedCodeConc() {
+	life := vrt.Pick("life", 1, 2)
+	c := godi.NewCollection()
+	add := func(f any) error {
+		if life == 1 {
+			return c.AddScoped(f)
+		}
+		return c.AddTransient(f)
+	}
+	vrt.Assume(add(madeCtor(1)) == nil && add(madeCtor2(2)) == nil)
+	p, err := c.Build()
+	vrt.Assert(err == nil, "C09.shared_code_build_failed", "Build failed:", err)
+	if err != nil {
+		return
+	}
+	var sc [2]godi.Scope
+	for g := range sc {
+		s, e := p.CreateScope(nil)
+		vrt.Assume(e == nil)
+		sc[g] = s
+	}
+	rounds := vrt.Param("rounds", 2)
+	var bad [2]int
+	var failed [2]error
+	var panicked [2]bool
+	run := func(g int) {
+		panicked[g], _ = guard(func() {
+			for k := 0; k < rounds; k++ {
+				first := (g+k)%2 == 0
+				for j := 0; j < 2; j++ {
+					if first == (j == 0) {
+						v, e := godi.Resolve[*TagSvc](sc[g])
+						if e != nil {
+							failed[g] = e
+						} else if v.Tag != 1 {
+							bad[g]++
+						}
+					} else {
+						v, e := godi.Resolve[*TagSvc2](sc[g])
+						if e != nil {
+							failed[g] = e
+						} else if v.Tag != 2 {
+							bad[g]++
+						}
+					}
+					vrt.Yield()
+				}
+			}
+		})
+	}
+	vrt.RaceDetect(true)
+	vrt.Go("A", func() { run(0) })
+	vrt.Go("B", func() { run(1) })
+	vrt.WaitAll()
+	vrt.Cover("both_done")
+	for g := 0; g < 2; g++ {
+		vrt.Assert(!panicked[g], "C09.panic", "goroutine", g, "panicked while resolving")
+		vrt.Assert(failed[g] == nil, "C09.undocumented_error", "goroutine", g, "resolution failed:", failed[g])
+		vrt.Assert(bad[g] == 0, "C09.wrong_wiring", "goroutine", g, "received a service built by the other constructor")
+	}
+	sc[0].Close()
+	sc[1].Close()
 	p.Close()
 }
